@@ -58,6 +58,8 @@ MAPUNC = ("emit", "mapper_uncond", {})
 ITCFG = ("iters", "config_immutable", {})
 ENCW = ("emit", "encode_writes", {})
 MODESET = ("modes", "mode_setters", {})
+MODEHELP = ("modes", "mode_helpers", {})
+SKIPPASS = ("iters", "skip_passthrough", {})
 FLF = ("special", "func_level_first", {})
 KMIX = ("mutators", "kind_mix", {})
 SECORD = ("emit", "section_order", {})
@@ -145,42 +147,42 @@ PROPS = {
              "R-LOCALS (owner, shape on every path, caller arguments), R-TYPE-TABLE.",
              "nothing beyond the trusted base for the index formula; the encoded declaration relies on C01's tables.",
              "who-may-write + path enumeration"),
-    "C15": P([MODESET, FULLIT, MODEF, ("modes", "has_instr_cover", {}), ("modes", "emit_order", {}), SIB, INJAT],
+    "C15": P([MODEHELP, MODESET, FULLIT, MODEF, ("modes", "has_instr_cover", {}), ("modes", "emit_order", {}), SIB, INJAT],
              "structural whole of the plain-mode lowering: mode→list dispatch, has_instr coverage, emission order on every path, sibling agreement of the injection APIs",
              "R-MODE-FIELD, R-HAS-INSTR, R-EMIT-ORDER, R-SIBLING(instrumenter), R-INJECT-AT.",
              "textual equality on concrete programs (a consequence).",
              "path enumeration over structured HIR + sibling effect summaries"),
-    "C17": P([FLF, ("misc", "type_dedup", {}), LCG, WALK, SPFLAG, CLEARCOH, MODEF, BLOCKT, DETAILS, CLEARS, ("special", "entry_preserve", {})],
+    "C17": P([MODEHELP, FLF, ("misc", "type_dedup", {}), LCG, WALK, SPFLAG, CLEARCOH, MODEF, BLOCKT, DETAILS, CLEARS, ("special", "entry_preserve", {})],
              "necessary: exit probes cover every return/throw/trap operator, wrapper opened/closed once, entry at idx 0, entry body preserved",
              "R-BLOCK-TABLES(4), R-RESOLVER-DETAILS, R-RESOLVE-CLEARS, R-ENTRY-PRESERVE.",
              "firing counts at run time.",
              "ADT-driven table checks + path enumeration"),
-    "C18": P([LCG, WALK, SPFLAG, CLEARCOH, MODEF, BLOCKT, DETAILS, CLEARS],
+    "C18": P([SIB, MODEHELP, LCG, WALK, SPFLAG, CLEARCOH, MODEF, BLOCKT, DETAILS, CLEARS],
              "necessary: accepting predicate, resolver and driver agree on {Block,Loop,If,Else}; body placed After the opener; list cleared",
              "R-BLOCK-TABLES(2), R-RESOLVER-DETAILS, R-RESOLVE-CLEARS.",
              "firing semantics.",
              "table agreement"),
-    "C19": P([LCG, SAVESIB, WALK, SPFLAG, CLEARCOH, MODEF, BLOCKT, DETAILS, ("misc", "scoped_pending", {}), CLEARS],
+    "C19": P([SIB, MODEHELP, LCG, SAVESIB, WALK, SPFLAG, CLEARCOH, MODEF, BLOCKT, DETAILS, ("misc", "scoped_pending", {}), CLEARS],
              "necessary: every opener pushed, exit bodies scoped to their block and resolved Before the closing else/end",
              "R-BLOCK-TABLES(1,2), R-RESOLVER-DETAILS, R-SCOPED-PENDING, R-RESOLVE-CLEARS.",
              "firing semantics.",
              "table agreement + container scoping analysis"),
-    "C20": P([("misc", "if_chain", {}), LCG, SAVESIB, SCOPED, WALK, SPFLAG, CLEARCOH, MODEF, BLOCKT, DETAILS, ("misc", "flag_reset", {}), ("misc", "dead_after_sink", {}), CLEARS],
+    "C20": P([MODEHELP, ("misc", "if_chain", {}), LCG, SAVESIB, SCOPED, WALK, SPFLAG, CLEARCOH, MODEF, BLOCKT, DETAILS, ("misc", "flag_reset", {}), ("misc", "dead_after_sink", {}), CLEARS],
              "necessary: branch tables agree, target id arithmetic, flag protocol (set/reset), flag reset inside guard, no After code on the final end",
              "R-BLOCK-TABLES(1,3), R-RESOLVER-DETAILS, R-FLAG-RESET, R-DEAD-AFTER-SINK, R-RESOLVE-CLEARS.",
              "exactly-once at run time.",
              "table agreement + path enumeration"),
-    "C21": P([LCG, WALK, SPFLAG, CLEARCOH, MODEF, BLOCKT, DETAILS, CLEARS, CLEARCOH],
+    "C21": P([MODESET, SIB, MODEHELP, LCG, WALK, SPFLAG, CLEARCOH, MODEF, BLOCKT, DETAILS, CLEARS, CLEARCOH],
              "necessary: opener stack, delete_block bookkeeping, retain_end, every visited instruction emptied while deleting",
              "R-BLOCK-TABLES(1,2), R-RESOLVER-DETAILS, R-RESOLVE-CLEARS, R-CLEAR-COHERENT.",
              "textual result.",
              "table agreement + guarded-write analysis"),
-    "C22": P([MODESET, ("special", "block_tables", {"openers_clause": False}), LCG, WALK, SAVESIB, SCOPED, ("special", "special_flag", {}), CLEARS, ("special", "entry_preserve", {}), MODEF, SIB, ("misc", "dead_after_sink", {}), ("modes", "has_instr_cover", {}), CLEARCOH, INJAT],
+    "C22": P([MODEHELP, MODESET, ("special", "block_tables", {"openers_clause": False}), LCG, WALK, SAVESIB, SCOPED, ("special", "special_flag", {}), CLEARS, ("special", "entry_preserve", {}), MODEF, SIB, ("misc", "dead_after_sink", {}), ("modes", "has_instr_cover", {}), CLEARCOH, INJAT],
              "necessary set: the is-special result is never dropped, lowered lists are cleared with the matching mode, the saved entry body is never overwritten, mode→list dispatch, no dead After sink",
              "R-SPECIAL-FLAG, R-RESOLVE-CLEARS, R-ENTRY-PRESERVE, R-MODE-FIELD, R-SIBLING(instrumenter), R-DEAD-AFTER-SINK, R-HAS-INSTR, R-CLEAR-COHERENT, R-INJECT-AT.",
              "that every accepted special injection appears in the bytes for every body.",
              "result-use analysis + guarded-write analysis"),
-    "C23": P([MAPUNC, FULLIT, ("emit", "tag_emit", {}), MODEF, ("misc", "type_dedup", {})],
+    "C23": P([SCRATCH, MAPUNC, FULLIT, ("emit", "tag_emit", {}), MODEF, ("misc", "type_dedup", {})],
              "necessary: InjectType↔Injection pairing, guards, parse-path tags are None, probe bodies collected after remapping",
              "R-TAG-EMIT (incl. R-PARSE-TAG-NONE), R-MODE-FIELD, R-TYPE-DEDUP (a parsed type is never overwritten by a tagged request for the same signature).",
              "record multiset over histories.",
@@ -190,12 +192,12 @@ PROPS = {
              "R-OPCODE-TABLE for all helpers, R-TYPE-TABLE(aux) for BlockType/HeapType conversions, writer agreement for DataType.",
              "Inject::inject implementations (C15/C12) and dependency From impls (trusted).",
              "abstract interpretation of each helper body; frozen reviewed name→variant table", level="proof"),
-    "C25": P([ITCFG, FULLIT, ("iters", "skip_loop", {}), ("iters", "coupled_state", {}), ("iters", "index_sites", {})],
+    "C25": P([IDSPACE, SKIPPASS, ITCFG, FULLIT, ("iters", "skip_loop", {}), ("iters", "coupled_state", {}), ("iters", "index_sites", {})],
              "necessary: the skip loop can only stop on an unskipped function or past the end; cursor and instruction bound move together; no unguarded index in the sub-iterators",
              "R-SKIP-LOOP, R-COUPLED-STATE, R-ITER-INDEX.",
              "exactly-once visiting over all skip lists.",
              "loop-exit condition analysis + path enumeration + MIR index sites"),
-    "C26": P([("iters", "comp_next_fallthrough", {}), ("component", "section_pairing", {}), ITCFG, FULLIT, SIB, ("iters", "coupled_state", {}), ("mutators", "who_may_call", {})],
+    "C26": P([SKIPPASS, ("iters", "comp_next_fallthrough", {}), ("component", "section_pairing", {}), ITCFG, FULLIT, SIB, ("iters", "coupled_state", {}), ("mutators", "who_may_call", {})],
              "ModuleIterator and ComponentIterator perform the same operation on the same LocalFunction API for every trait method; module cursor changes rebuild the module sub-iterator from metadata and skip list",
              "R-SIBLING(instrumenter), R-COUPLED-STATE, R-WHOMAYCALL.",
              "visit-sequence equality over all components and skip maps.",
